@@ -4,10 +4,12 @@
 package c10
 
 import (
+	"math/big"
 	"math"
 	"strconv"
 	"strings"
 
+	"github.com/trajectoryjp/spatial_id_go/v4/common/consts"
 	"github.com/trajectoryjp/spatial_id_go/v4/common/object"
 	"github.com/trajectoryjp/spatial_id_go/v4/shape"
 	"github.com/trajectoryjp/spatial_id_go/v4/transform"
@@ -29,6 +31,12 @@ const (
 	nReset  = "ResetSequence"
 	nSet    = "ObjectSetters"
 	nAlias  = "ObjectAliasing"
+	nPInt   = "ParseInt"
+	nAtoi   = "Atoi"
+	nFmt    = "FormatInt"
+	nItoa   = "Itoa"
+	nSplit  = "Split"
+	nJoin   = "Join"
 )
 
 // ---------------------------------------------------------------- invokers
@@ -252,6 +260,40 @@ func fnAliasing() *run.Fn {
 		}
 		return w.L(w.List(readBack(oa)), w.List(readBack(ob)), w.List(readBack(oc)))
 	}}
+}
+
+// ---- the string layer itself: the strconv / strings calls /repo makes on ID strings (ParseInt(s,10,64) x16, Atoi x9, FormatInt(z,10) x38,
+// Itoa x2, strings.Split(s,"/") x16, strings.Join(l,"/") x9), called directly. The wire format carries every byte (NUL, non-UTF-8 included).
+func fnParseInt() *run.Fn {
+	return &run.Fn{Name: nPInt, Invoke: func(a []w.Val) w.Val {
+		v, err := strconv.ParseInt(w.AsStr(a[0]), 10, 64)
+		return w.WithErr(w.I(v), err)
+	}}
+}
+func fnAtoi() *run.Fn {
+	return &run.Fn{Name: nAtoi, Invoke: func(a []w.Val) w.Val {
+		v, err := strconv.Atoi(w.AsStr(a[0]))
+		return w.WithErr(w.I(int64(v)), err)
+	}}
+}
+func fnFormatInt() *run.Fn {
+	return &run.Fn{Name: nFmt, Invoke: func(a []w.Val) w.Val { return w.S(strconv.FormatInt(w.AsInt(a[0]), 10)) }}
+}
+func fnItoa() *run.Fn {
+	return &run.Fn{Name: nItoa, Invoke: func(a []w.Val) w.Val { return w.S(strconv.Itoa(int(w.AsInt(a[0])))) }}
+}
+func fnSplit() *run.Fn {
+	return &run.Fn{Name: nSplit, Invoke: func(a []w.Val) w.Val {
+		r := strings.Split(w.AsStr(a[0]), consts.SpatialIDDelimiter)
+		out := make(w.List, len(r))
+		for i, f := range r {
+			out[i] = w.S(f)
+		}
+		return out
+	}}
+}
+func fnJoin() *run.Fn {
+	return &run.Fn{Name: nJoin, Invoke: func(a []w.Val) w.Val { return w.S(strings.Join(w.AsStrs(a[0]), consts.SpatialIDDelimiter)) }}
 }
 
 // one sub-call of a sequence. A panic of a sub-call is not caught here: it ends the whole harness call, which the runner records as a
@@ -927,6 +969,135 @@ func caseAliasing(g *Gen) run.Case {
 	return run.Case{Prop: "C10", Fn: nAlias, Args: []w.Val{w.S(s), cmds}, Tags: append(tags, Tag("seqlen=%d", n))}
 }
 
+// ---- adversarial inputs for the string layer ----
+var numFixed = []string{"", "+", "-", "+-1", "-+1", "--1", "++1", " 1", "1 ", "1\n", "\t1", "0x10", "0X1f", "0b1", "0o7", "1_0", "1_000", "_1", "１２", "٣", "1e3", "1.0", "1.",
+	"0", "-0", "+0", "00", "-00", "+00", "007", "-007", "+007", "1", "-1", "+1", "a", "1a", "a1", "1-", "1+", "\x001", "1\x00", "\xff", "1\xff", "\xc3\x28",
+	"9223372036854775807", "9223372036854775808", "9223372036854775806", "-9223372036854775808", "-9223372036854775809", "-9223372036854775807",
+	"+9223372036854775807", "+9223372036854775808", "18446744073709551615", "18446744073709551616", "-18446744073709551616", "99999999999999999999",
+	"-99999999999999999999", "1000000000000000000", "999999999999999999", "10000000000000000000", "-10000000000000000000",
+	"99999999999999999999x", "18446744073709551615x", "9223372036854775808x", "0000000000000000000009223372036854775807", "0000000000000000000009223372036854775808",
+	"-0000000000000000000009223372036854775808", "-0000000000000000000009223372036854775809", "９", "۱", "1١", "0/0", "1/", "/1"}
+
+func numString(g *Gen) (string, string) {
+	switch g.Intn(10) {
+	case 0, 1, 2:
+		return numFixed[g.Intn(len(numFixed))], "fixed"
+	case 3: // around the int64 / uint64 boundaries, decorated
+		b := new(big.Int).Lsh(big.NewInt(1), uint(g.Pick(63, 63, 63, 64, 62)))
+		b.Add(b, big.NewInt(g.Int63n(5)-2))
+		if g.Chance(0.5) {
+			b.Neg(b)
+		}
+		s := b.String()
+		if g.Chance(0.3) {
+			neg := strings.HasPrefix(s, "-")
+			d := strings.Repeat("0", g.Intn(25)) + strings.TrimPrefix(s, "-")
+			if neg {
+				s = "-" + d
+			} else if g.Chance(0.5) {
+				s = "+" + d
+			} else {
+				s = d
+			}
+		}
+		return s, "boundary"
+	case 4: // 17..21 random digits with an optional sign
+		n := 17 + g.Intn(5)
+		bs := make([]byte, n)
+		for i := range bs {
+			bs[i] = byte('0' + g.Intn(10))
+		}
+		return []string{"", "+", "-"}[g.Intn(3)] + string(bs), "19-20 digits"
+	case 5: // a valid spelling with one byte replaced / inserted
+		bs := []byte(field(g, int64Edge(g), false))
+		junk := []byte{' ', '_', '+', '-', 'x', 0, 0xff, 0xef, '/', '\n', '.', 'e', ':', '/' - 1, '9' + 1}
+		i := g.Intn(len(bs) + 1)
+		if i < len(bs) && g.Chance(0.5) {
+			bs[i] = junk[g.Intn(len(junk))]
+		} else {
+			bs = append(bs[:i], append([]byte{junk[g.Intn(len(junk))]}, bs[i:]...)...)
+		}
+		return string(bs), "one bad byte"
+	case 6: // random bytes
+		n := g.Intn(6)
+		bs := make([]byte, n)
+		for i := range bs {
+			bs[i] = byte(g.Intn(256))
+		}
+		return string(bs), "random bytes"
+	}
+	return field(g, int64Edge(g), false), "well-formed"
+}
+
+func slashString(g *Gen) string {
+	n := g.Intn(7) // 0..6 slashes
+	var b strings.Builder
+	for i := 0; i <= n; i++ {
+		if i > 0 {
+			b.WriteByte('/')
+		}
+		switch g.Intn(6) {
+		case 0: // empty field: leading / trailing / double slashes
+		case 1:
+			s, _ := numString(g)
+			b.WriteString(strings.ReplaceAll(s, "/", ""))
+		case 2:
+			bs := make([]byte, g.Intn(4))
+			for j := range bs {
+				c := byte(g.Intn(256))
+				if c == '/' {
+					c = 0
+				}
+				bs[j] = c
+			}
+			b.Write(bs)
+		default:
+			b.WriteString(strconv.FormatInt(g.Int63n(1<<uint(g.Intn(40)))-int64(g.Intn(3)), 10))
+		}
+	}
+	return b.String()
+}
+
+func caseStringLayer(g *Gen) run.Case {
+	switch g.Intn(10) {
+	case 0, 1, 2:
+		s, tag := numString(g)
+		return run.Case{Prop: "C10", Fn: nPInt, Args: []w.Val{w.S(s)}, Tags: []string{"string-layer", "num:" + tag}}
+	case 3, 4:
+		s, tag := numString(g)
+		return run.Case{Prop: "C10", Fn: nAtoi, Args: []w.Val{w.S(s)}, Tags: []string{"string-layer", "num:" + tag}}
+	case 5:
+		return run.Case{Prop: "C10", Fn: nFmt, Args: []w.Val{w.I(int64Edge(g))}, Tags: []string{"string-layer"}}
+	case 6:
+		v := int64Edge(g)
+		if g.Chance(0.3) {
+			v = g.Pick(0, 1, -1, 9, 10, -10, 99, 100, 1<<31, -(1 << 31), 1<<32, 1<<53, -(1 << 53), 1e18, -1e18)
+		}
+		return run.Case{Prop: "C10", Fn: nItoa, Args: []w.Val{w.I(v)}, Tags: []string{"string-layer"}}
+	case 7, 8:
+		return run.Case{Prop: "C10", Fn: nSplit, Args: []w.Val{w.S(slashString(g))}, Tags: []string{"string-layer"}}
+	}
+	// Join: 0..7 fields, mostly slash-free; sometimes a field containing '/', sometimes the fields of a Split
+	var l []string
+	switch g.Intn(4) {
+	case 0:
+		l = strings.Split(slashString(g), "/")
+	case 1:
+		for i := g.Intn(5); i > 0; i-- {
+			l = append(l, slashString(g))
+		}
+	default:
+		for i := g.Intn(8); i > 0; i-- {
+			s, _ := numString(g)
+			if g.Chance(0.9) {
+				s = strings.ReplaceAll(s, "/", "")
+			}
+			l = append(l, s)
+		}
+	}
+	return run.Case{Prop: "C10", Fn: nJoin, Args: []w.Val{strsVal(l)}, Tags: []string{"string-layer", Tag("join-fields=%d", len(l))}}
+}
+
 func call(fn string, args ...w.Val) w.Val { return append(w.List{w.S(fn)}, args...) }
 
 // mixed sequences: the same conversion on related lists (the list, a permutation, a prefix, the list again), the two conversions interleaved,
@@ -1000,7 +1171,7 @@ func init() {
 	Scale["C10"] = 10000
 	Registry["C10"] = func(r *run.Runner, g *Gen, n int) {
 		base := map[string]*run.Fn{}
-		for _, f := range []*run.Fn{fnS2E(), fnE2S(), fnRoundTrip(), fnParsePrint(), fnExpand(), fnVoxel(), fnResetSeq(), fnSetters(), fnAliasing()} {
+		for _, f := range []*run.Fn{fnS2E(), fnE2S(), fnRoundTrip(), fnParsePrint(), fnExpand(), fnVoxel(), fnResetSeq(), fnSetters(), fnAliasing(), fnParseInt(), fnAtoi(), fnFormatInt(), fnItoa(), fnSplit(), fnJoin()} {
 			base[f.Name] = f
 			r.Register(primed(f))
 		}
@@ -1021,7 +1192,9 @@ func init() {
 					c = caseCallSeq(g)
 				}
 			} else {
-				switch g.Intn(12) {
+				switch g.Intn(14) {
+				case 12, 13:
+					c = caseStringLayer(g)
 				case 0, 1:
 					c = caseConv(g, false)
 				case 2, 3:
